@@ -26,6 +26,14 @@ Fixpoint eq_list (a b : list Qc) : bool :=
   | _, _ => false
   end.
 
+(* compare only where the mask is true (bins whose members are all finite in the implementation's input) *)
+Fixpoint eq_list_masked (m : list bool) (a b : list Qc) : bool :=
+  match m, a, b with
+  | [], [], [] => true
+  | k :: m', x :: a', y :: b' => (if k then Qc_eq_bool x y else true) && eq_list_masked m' a' b'
+  | _, _, _ => false
+  end.
+
 (* |x - y| <= 2^-40 * max(1, |y|) : float64 result of the implementation vs exact model value.
    (The analysis multiplies by the rounded reciprocal of rho*dvol, so its float result is within a
    few ulp = 2^-52 relative of the exact rational; 2^-40 leaves three decimal orders of slack.) *)
